@@ -558,8 +558,10 @@ def check_histories(res, rng, reps, zero_free_mode):
                     if dict(o) != snap:
                         res.fail(f"sweep:{'__iadd__' if kind == 'iadd' else '__isub__'}:right_operand_mutated", "", {"history": hist})
                 elif kind in ("iadd_self", "isub_self"):
-                    hist.append((kind,))
-                    other = op.copy()
+                    # the operand is the operator itself (op += op, op -= op) or an equal copy
+                    same = rng.random() < 0.5
+                    hist.append((kind, "same object" if same else "copy"))
+                    other = op if same else op.copy()
                     if kind == "iadd_self":
                         op += other
                         ref = {k: c + c for k, c in ref.items()}
